@@ -436,6 +436,7 @@ func runCheck(prop, tier, repo string, verbose bool, only string, timeout int) i
 	exit := 0
 	os.MkdirAll(filepath.Join(verifDir, "replays"), 0o755)
 	viol := 0
+	replayCache := map[string][2]string{}
 	for _, o := range failed {
 		if f := kf.match(prop, o.Name); f != nil {
 			fmt.Printf("KNOWN-FINDING: property=%s %s\n", prop, f.What)
@@ -446,9 +447,31 @@ func runCheck(prop, tier, repo string, verbose bool, only string, timeout int) i
 		rep := map[string]interface{}{"property": prop, "obligation": o.Name, "kind": o.Kind, "function": o.Func, "position": o.Pos,
 			"status": o.Res.Status, "solver_output": o.Res.Output, "model": o.Res.Model, "smt_file": o.Res.File, "note": o.Note,
 			"failing_input": nil}
+		// replay against the real code (one run per function under contract)
+		var failing, out string
+		if c, ok := replayCache[o.Func]; ok {
+			failing, out = c[0], c[1]
+		} else if os.Getenv("VERIF_NO_REPLAY") == "" {
+			var ran bool
+			failing, out, ran = runReplay(repo, prop, o)
+			if ran {
+				replayCache[o.Func] = [2]string{failing, out}
+			}
+		}
+		suffix := " no-failing-input-found"
+		if failing != "" {
+			var fi interface{}
+			if json.Unmarshal([]byte(failing), &fi) == nil {
+				rep["failing_input"] = fi
+			} else {
+				rep["failing_input"] = failing
+			}
+			suffix = ""
+		}
+		rep["replay_output"] = trunc(out, 4000)
 		b, _ := json.MarshalIndent(rep, "", " ")
 		os.WriteFile(rp, b, 0o644)
-		fmt.Printf("VIOLATION property=%s replay=%s obligation=%s no-failing-input-found\n", prop, rp, o.Name)
+		fmt.Printf("VIOLATION property=%s replay=%s obligation=%s%s\n", prop, rp, o.Name, suffix)
 		exit = 1
 	}
 	if nCanBad > 0 || nObl == 0 {
